@@ -53,6 +53,7 @@ def run_const(spec):
         byp = _classes(o, spec, r)
         asm = r.assemblies[0]
         adiabatic = r._is_adiabatic
+        T_in = float(spec["core"]["coolant_inlet_temp"])
         state = {}
         worst = {"tally": 0.0, "indep": 0.0, "carry": 0.0}
         wall_heat = [0.0]
@@ -83,12 +84,14 @@ def run_const(spec):
                 if not np.array_equal(m0, m1):
                     fails.setdefault("mass_flow_changed_during_step", "step %d stream %s" % (i, n0))
             scale = max(scale, 1e-300)
+            # absolute floor: round-off of representing T ~ T_in in the enthalpy flow (1e-16 * m cp T per cell)
+            floor = 1e-13 * cp * sum(float(np.sum(m1)) for _, m1, _ in now) * T_in
             # (a) the code's own wall tallies: interior and each flowing bypass stream
             q_duct = float(np.sum(reg.ebal["duct"] - snap["ebal_duct"]))
             wall_heat[0] += abs(q_duct)
             res = dH["int"] - (dP["pins"] + dP["cool"] + dP["refl"]) - q_duct
             worst["tally"] = max(worst["tally"], abs(res) / scale)
-            if abs(res) > TOL_STEP * scale:
+            if abs(res) > TOL_STEP * scale + floor:
                 fails.setdefault("step_balance_interior", "step %d z=%.6g residual %.3e of %.3e"
                                  % (i, z, res, scale))
             for n in dH:
@@ -98,7 +101,7 @@ def run_const(spec):
                               + np.sum(reg.ebal["duct_byp_out"][b] - snap["ebal_out"][b]))
                     rb = dH[n] - q
                     worst["tally"] = max(worst["tally"], abs(rb) / scale)
-                    if abs(rb) > TOL_STEP * scale:
+                    if abs(rb) > TOL_STEP * scale + floor:
                         fails.setdefault("step_balance_bypass", "step %d gap %d residual %.3e of %.3e"
                                          % (i, b, rb, scale))
             # (b) independent of the tallies: ducts store no heat, so with an adiabatic outer wall all
@@ -108,7 +111,7 @@ def run_const(spec):
             if adiabatic and byp != "stagnant" and not (o.classes["conv_approx"] and abs(dP["duct"]) > 0):
                 tot = sum(dH.values()) - sum(dP.values())
                 worst["indep"] = max(worst["indep"], abs(tot) / scale)
-                if abs(tot) > TOL_STEP * scale:
+                if abs(tot) > TOL_STEP * scale + floor:
                     fails.setdefault("step_balance_adiabatic_total", "step %d residual %.3e of %.3e"
                                      % (i, tot, scale))
             # region change: mixed-mean temperature carried over unchanged
